@@ -180,7 +180,33 @@ func ruleCL2(c *Ctx) *rule {
 			call, isCall := ex.Tuple.(*ssa.Call)
 			return isCall && calleeName(call.Common()) == "os.Stat"
 		}
+		// the guards of the removal itself and of every append that puts a path on the list the removal works through
+		type guarded struct {
+			g  guard
+			at ssa.Instruction
+		}
+		var gs []guarded
 		for _, g := range c.info(in.Parent()).necessaryGuards(in.Block()) {
+			gs = append(gs, guarded{g, in})
+		}
+		if pa := s.site.Common().Args; len(pa) > 0 {
+			ps := c.newSlicer()
+			ps.depth = 2
+			for _, v := range ps.run(pa[0]).order {
+				app, isCall := v.(*ssa.Call)
+				if !isCall {
+					continue
+				}
+				if bi, isB := app.Call.Value.(*ssa.Builtin); !isB || bi.Name() != "append" {
+					continue
+				}
+				for _, g := range c.info(app.Parent()).necessaryGuards(app.Block()) {
+					gs = append(gs, guarded{g, app})
+				}
+			}
+		}
+		for _, gg := range gs {
+			g, in := gg.g, gg.at
 			hit := statSucceeded(g)
 			if call, isCall := g.cond.(*ssa.Call); isCall && !hit {
 				// a module predicate (`exists(path)`): the ways it returns the value this edge needs
@@ -583,6 +609,134 @@ func (c *Ctx) pathArg(m mutSite) ssa.Value {
 	return args[0]
 }
 
+// variadicElems: the values stored into the array behind a variadic argument (`f(a, b, c)` passes a slice of a fresh array), by index.
+func variadicElems(arg ssa.Value) []ssa.Value {
+	sl, ok := arg.(*ssa.Slice)
+	if !ok {
+		return nil
+	}
+	arr, ok := sl.X.(*ssa.Alloc)
+	if !ok {
+		return nil
+	}
+	byIdx := map[int64]ssa.Value{}
+	for _, addr := range derivedAddrs(arr) {
+		ia, ok := addr.(*ssa.IndexAddr)
+		if !ok {
+			continue
+		}
+		k, isC := constInt(ia.Index)
+		if !isC {
+			return nil
+		}
+		for _, ref := range valueReferrers(ia) {
+			if st, ok := ref.(*ssa.Store); ok && st.Addr == ssa.Value(ia) {
+				byIdx[k] = st.Val
+			}
+		}
+	}
+	var out []ssa.Value
+	for i := int64(0); ; i++ {
+		v, ok := byIdx[i]
+		if !ok {
+			break
+		}
+		out = append(out, v)
+	}
+	return out
+}
+
+// dirRooted: on every way v can be produced it is a path that starts with SpokFile.Dir: the field itself, a filepath.Join whose first
+// element is one, filepath.Dir / Clean / Abs of one, a handle opened on one, or a parameter bound to one at every call site of the
+// module. It returns "" or what was found instead.
+func (c *Ctx) dirRooted(v ssa.Value, depth int, seen map[ssa.Value]bool) string {
+	if v == nil {
+		return "no path argument"
+	}
+	if seen[v] {
+		return ""
+	}
+	seen[v] = true
+	if depth == 0 {
+		return "call chain too deep"
+	}
+	for _, o := range origins(v) {
+		if isFieldLoad(o, "file.SpokFile.Dir") || fieldKey(o) == "file.SpokFile.Dir" {
+			continue
+		}
+		switch x := o.(type) {
+		case *ssa.Parameter:
+			if !inModule(x.Parent()) {
+				return "parameter of " + fname(x.Parent())
+			}
+			idx := -1
+			for i, q := range x.Parent().Params {
+				if q == x {
+					idx = i
+				}
+			}
+			sites := c.callersOf(x.Parent())
+			if len(sites) == 0 {
+				// an exported entry point nobody in the module calls: its callers are outside this analysis (FX1 judges module sites)
+				continue
+			}
+			for _, s := range sites {
+				args := s.Common().Args
+				if idx >= len(args) {
+					return "cannot bind at " + c.ipos(s)
+				}
+				if why := c.dirRooted(args[idx], depth-1, seen); why != "" {
+					return why + " <- " + fname(s.Parent()) + " at " + c.ipos(s)
+				}
+			}
+			continue
+		case *ssa.Call:
+			n := calleeName(x.Common())
+			args := x.Common().Args
+			switch n {
+			case "path/filepath.Join":
+				if len(args) == 1 {
+					if el := variadicElems(args[0]); len(el) > 0 {
+						if why := c.dirRooted(el[0], depth, seen); why != "" {
+							return why
+						}
+						continue
+					}
+				}
+			case "path/filepath.Dir", "path/filepath.Clean":
+				if why := c.dirRooted(args[0], depth, seen); why != "" {
+					return why
+				}
+				continue
+			}
+			return "the result of " + n
+		case *ssa.Extract:
+			if call, ok := x.Tuple.(*ssa.Call); ok {
+				n := calleeName(call.Common())
+				switch n {
+				case "path/filepath.Abs", "os.OpenFile", "os.Create", "os.Open":
+					if why := c.dirRooted(call.Common().Args[0], depth, seen); why != "" {
+						return why
+					}
+					continue
+				}
+				return "the result of " + n
+			}
+			return valText(o)
+		case *ssa.Const:
+			s, _ := constString(x)
+			return fmt.Sprintf("the constant %q", s)
+		}
+		if g, ok := o.(*ssa.UnOp); ok {
+			if gl, isG := g.X.(*ssa.Global); isG {
+				return "the package-level " + gl.Name()
+			}
+		}
+		return valText(o)
+	}
+	return ""
+}
+
 func dirDepth(v ssa.Value, seen map[ssa.Value]bool) int {
 	if v == nil || seen[v] {
 		return 0
@@ -636,7 +790,7 @@ func dirDepth(v ssa.Value, seen map[ssa.Value]bool) int {
 }
 
 func ruleFX1(c *Ctx) *rule {
-	r := &rule{ID: "FX1", Engine: "E1+E3", Floor: 9,
+	r := &rule{ID: "FX1", Engine: "E1+E3", Floor: 8,
 		Statement: "inventory of every file-mutating primitive call in the module with its interprocedural entry conditions: a site without Options.{Init,Fmt,Clean} == true must write below <SpokFile.Dir>/<cache constants> only; every external package the module calls is in the effect table",
 		Necessity: "a mutating call reachable under no explicit action and not rooted in the cache directory changes the user's tree while listing, showing or running tasks"}
 	sites := c.mutatingSites()
@@ -695,6 +849,10 @@ func ruleFX1(c *Ctx) *rule {
 			r.bad(key+" [no action]", c.ipos(m.site), "the path climbs out of the cache directory (filepath.Dir applied more than once)")
 		default:
 			_ = depth
+			if why := c.dirRooted(pa, 5, map[ssa.Value]bool{}); why != "" {
+				r.bad(key+" [no action]", c.ipos(m.site), "a write that no action flag guards is not below SpokFile.Dir on every way it is reached: "+why+" (a bare cache constant is resolved against the working directory)")
+				break
+			}
 			r.ok(key+" [cache]", c.ipos(m.site), "rooted in SpokFile.Dir + cache constants; conditions "+atomList(cond))
 		}
 	}
@@ -966,7 +1124,7 @@ func isListingCond(cond map[string]bool) bool {
 }
 
 func ruleFX4(c *Ctx) *rule {
-	r := &rule{ID: "FX4", Engine: "E1", Floor: 9,
+	r := &rule{ID: "FX4", Engine: "E1", Floor: 7,
 		Statement: "no file-mutating primitive call site has the conditions of a listing action (--show, --vars, or no task names without a default task) among its entry conditions, and nothing called on those branches reaches one",
 		Necessity: "listing must leave every file byte-identical"}
 	for _, m := range c.mutatingSites() {
@@ -2618,7 +2776,7 @@ func appProperties() []*propertySpec {
 			Explanation: "Static analysis of the whole error path: SH1 proves that the interpreter's error becomes either the returned error or Result.Status of the returned result and that the Ok() methods are Status == 0 / conjunctions over full ranges; RT1 proves that every caller of SpokFile.Run ranges over all results testing Ok() unconditionally, that the not-Ok side ends in an error naming the task and that nil is returned only after exhaustion; RT2 proves error propagation on every module call edge between main and Runner.Run; RT3 proves main reports on the real standard error and calls os.Exit with a non-zero constant on every path from the failure edge; CP8 (shared with C10) proves a digest is only recorded under Ok() of the task's own commands.",
 			NotCovered:  []string{"the exit status computed inside mvdan.cc/sh", "flag combinations rejected by the CLI library before App.Run"},
 			Assumptions: []string{"interp.IsExitStatus decodes exactly the exit-status errors of (*interp.Runner).Run", "msg.Error writes to the process's standard error; os.Exit never returns"},
-			Rules:       []func(*Ctx) *rule{ruleSH1, ruleSH2, ruleRT1, ruleRT2, ruleRT3, ruleRT4, ruleRT5, ruleGR6, ruleCP8}},
+			Rules:       []func(*Ctx) *rule{ruleSH1, ruleSH2, ruleSH3, ruleRT1, ruleRT2, ruleRT3, ruleRT4, ruleRT5, ruleGR6, ruleCP8}},
 		{ID: "C12", Title: "--clean removes exactly the declared outputs and the cache, never the project",
 			Explanation: "Static analysis of every os.Remove/RemoveAll call site of the module with its interprocedural entry conditions (greatest fixpoint over the call graph of the Options.*/HasTask guards): CL1 classifies every root of the removed path by backward slicing (only output fields, their Vars/Globs indirections and SpokFile.Dir + cache constants are allowed); CL2 proves each output field and the cache directory reach the removal, globs through their expansion; CL3 proves a test relating each removed path to SpokFile.Dir with an erroring side precedes the removal (at the sink or as a validate-all pass that dominates it); CL4 proves the entry conditions Clean == true and HasTask(\"clean\") == false and that the true side runs the task named \"clean\".",
 			NotCovered:  []string{"that the containment predicate itself is correct for every path string", "directories matched by output globs"},
